@@ -17,7 +17,8 @@ EXPLANATION = (
     "held events, deletes the join state only when nothing is pending, agrees with the join on what 'pending' means, and cancel_task finds "
     "the pending request under the key it was registered with, removes it before the callback, clears a Wait's timer and reports "
     "Task.Terminated. Not decided: everything that depends on the arrival order of sibling events, replies and timers."
-    ' (R10) the keys the event gate subscripts exist in every Branch record the join writes (or the read is guarded), and the reply gate looks the group up tolerantly: stragglers of a tidied-up group are dropped like any terminated branch instead of raising KeyError.')
+    ' (R10) the keys the event gate subscripts exist in every Branch record the join writes (or the read is guarded), and the reply gate looks the group up tolerantly: stragglers of a tidied-up group are dropped like any terminated branch instead of raising KeyError.'
+    " (R11) every handle_error call at the top level of notify is dominated by a call of the termination gate; reported on the current tree as D71 (the 'non-existent state' arm).")
 RULE_TEXT = "obligation = one reply path x fact, one dominated site, one bookkeeping fact; non-trivial = distinct (rule, site)"
 
 
@@ -204,4 +205,5 @@ def run(chk, ctx):
     round4.teardown_scoped_to_terminated_groups(chk, ctx)
     from . import round5
     round5.gates_tolerate_tidied_group(chk, ctx)
+    round5.notify_fails_only_behind_the_gate(chk, ctx)
     chk.assume("given the decided clauses, whether a late sibling can still disturb the outcome depends on delivery order (not decided)")
